@@ -184,11 +184,17 @@ IMPORTS = {
     "C10": [("C09", lambda name: _re.search(r"memo|_reset_evaluation_cache|history\[", name) is not None, False, lambda fam: True)],
     # the memo pre-condition of the evaluation-family methods is what makes the value / raise
     # post-conditions of the public entries true on every history: import it where it is used
+    # C06 (all routes agree) is the corollary of the route contracts AND of the per-class
+    # obligations those contracts rest on (C03 forward, C04 reverse, C05 symbolic, C07 raising)
+    "C06": [("C09", _memo, True, lambda fam: False),
+            ("C09", lambda name: "._reset_evaluation_cache/" in name, False, lambda fam: fam.endswith("._reset_evaluation_cache")),
+            ("C03", lambda name: True, False, lambda fam: True), ("C04", lambda name: True, False, lambda fam: True),
+            ("C05", lambda name: True, False, lambda fam: True), ("C07", lambda name: True, False, lambda fam: True)],
     # ... and the contract of _reset_evaluation_cache (used at every public entry) is proved by
     # its own per-class families
     **{p: [("C09", _memo, True, lambda fam: False),
            ("C09", lambda name: "._reset_evaluation_cache/" in name, False, lambda fam: fam.endswith("._reset_evaluation_cache"))]
-       for p in ("C01", "C02", "C03", "C04", "C05", "C06", "C07", "C14")},
+       for p in ("C01", "C02", "C03", "C04", "C05", "C07", "C14")},
 }
 MAX_REPLAYS = 12
 MIN_OBLIGATIONS = {}
